@@ -200,6 +200,41 @@ func AnalyzeLocks(spec LockSpec) *LockInfo {
 			}
 		}
 	}
+	// 1a. forwarding: a function that hands its own bool parameter on as the flag of a flag function
+	// has that parameter as its flag (`func (o *T) lookup(r, locked bool) { … o.readIndex(r, locked) … }`)
+	for changed := true; changed; {
+		changed = false
+		for _, f := range spec.Funcs {
+			if li.FlagOf[f] != nil {
+				continue
+			}
+			for _, b := range f.Blocks {
+				for _, in := range b.Instrs {
+					c, ok := in.(ssa.CallInstruction)
+					if !ok {
+						continue
+					}
+					g := li.scopeCallee(c, inScope)
+					if g == nil || g == f {
+						continue
+					}
+					fp := li.FlagOf[g]
+					if fp == nil {
+						continue
+					}
+					for i, q := range g.Params {
+						if q != fp || i >= len(c.Common().Args) {
+							continue
+						}
+						if pr, ok := c.Common().Args[i].(*ssa.Parameter); ok && pr.Parent() == f {
+							li.FlagOf[f] = pr
+							changed = true
+						}
+					}
+				}
+			}
+		}
+	}
 	// 1b. hand-off wrappers
 	for _, f := range spec.Funcs {
 		if li.Acquires[f] && li.FlagOf[f] == nil && isHandoff(f, spec.ID) {
